@@ -221,6 +221,19 @@ def check_property(pid, tier, seed):
             race_report = p.stderr[-6000:]
         elif p.returncode != 0:
             raise Infra("driver gen failed:\n" + p.stdout[-3000:] + p.stderr[-3000:])
+        # the witnesses of the known findings listed for this property are re-executed on every run
+        kf0 = load_kf()
+        wit = [k["witness"] for k in kf0.get("known", []) if k.get("property") == pid and k.get("witness")]
+        if wit:
+            win = os.path.join(tdir, "kf_in.jsonl")
+            with open(win, "w") as f:
+                f.write(json.dumps({"op": "SetMode", "m": 0}) + "\n")
+                for w_ in wit:
+                    f.write(json.dumps(w_) + "\n")
+            pw = subprocess.run([drv, "replay", win, os.path.join(tdir, "shard_kf.ndjson")], capture_output=True, text=True, env=GOENV)
+            os.remove(win)
+            if pw.returncode != 0:
+                raise Infra("driver replay of known-finding witnesses failed:\n" + pw.stdout + pw.stderr)
         nbeh = 0
         if tcfg.get("calc"):
             _, nbeh = run_calc(specdir, drv, tdir, seed, tcfg["calc"])
